@@ -619,6 +619,18 @@ func (m *Machine) callValue(f *Frame, fnv value, args []value, res ssa.Value, ki
 				}
 			}
 		}
+		if specs, ok := m.cfg.ConcShrParams[name]; ok {
+			for _, sp := range specs {
+				pi, shr := sp[0], uint64(sp[1])
+				t, isT := args[pi].(*Term)
+				if !isT || t.IsConst() {
+					continue
+				}
+				hi := m.tb.Lshr(t, m.tb.Const(t.w, shr))
+				c := m.concretize(hi, "param>>"+fmt.Sprint(shr)+" of "+name)
+				args[pi] = m.tb.BOr(m.tb.Const(t.w, c<<shr), m.tb.BAnd(t, m.tb.Const(t.w, (uint64(1)<<shr)-1)))
+			}
+		}
 		m.pushFrame(fv.fn, args, fv.env, res, kind)
 		return
 	}
@@ -651,6 +663,26 @@ func (m *Machine) doReturn(f *Frame, in *ssa.Return) {
 			} else if t, isTerm := r.(*Term); isTerm && !t.IsConst() && ri == 0 {
 				r = m.tb.Const(t.w, m.concretize(t, "result of "+f.info.name))
 			}
+		}
+	}
+	if specs, ok := m.cfg.ConcShr[f.info.name]; ok {
+		for _, sp := range specs {
+			ri, shr := sp[0], uint64(sp[1])
+			tup, isT := r.(Tuple)
+			if !isT {
+				continue
+			}
+			t, isTerm := tup[ri].(*Term)
+			if !isTerm || t.IsConst() {
+				continue
+			}
+			// partial concretisation: fork on t>>shr, keep the low bits symbolic
+			hi := m.tb.Lshr(t, m.tb.Const(t.w, shr))
+			c := m.concretize(hi, "result>>"+fmt.Sprint(shr)+" of "+f.info.name)
+			nt := make(Tuple, len(tup))
+			copy(nt, tup)
+			nt[ri] = m.tb.BOr(m.tb.Const(t.w, c<<shr), m.tb.BAnd(t, m.tb.Const(t.w, (uint64(1)<<shr)-1)))
+			r = nt
 		}
 	}
 	m.returnValue(r)
